@@ -173,6 +173,36 @@ def job_dma(tier, seed):
     return ck.export()
 
 
+def job_mem(tier, seed):
+    """MemoryInterface / MemoryInterfaceUnit / SharedMemory: every accessor from an arbitrary MIU state (page mode, x/y/z page,
+    region sizes, MMIO base all symbolic) either stops at the deliberate ASSERT of the page registers or indexes the 0x80000-byte
+    DSP memory array in bounds (the array region records offset + n <= size for every byte access)"""
+    from checks import c11
+    E = c11.Env()
+    ck = core.Check('C18', 'model_checking', tier, seed)
+    a16, a32, v, byp = z3.BitVec('addr16', 16), z3.BitVec('addr32', 32), z3.BitVec('val', 16), z3.Bool('bypass')
+    ops = [('DataRead', '@mi_dread', lambda c: [c['mi'], a16, byp], []), ('DataWrite', '@mi_dwrite', lambda c: [c['mi'], a16, v, byp], []),
+           ('DataReadA32', '@mi_dreada32', lambda c: [c['mi'], a32], []), ('DataWriteA32', '@mi_dwritea32', lambda c: [c['mi'], a32, v], []),
+           ('ProgramRead', '@mi_pread', lambda c: [c['mi'], a32], [z3.ULT(a32, 0x40000)]), ('ProgramWrite', '@mi_pwrite', lambda c: [c['mi'], a32, v], [z3.ULT(a32, 0x40000)])]
+    for nm, fn, mk, A in ops:
+        ex, st, ctx = E.mk()
+        ex.exits, ex.oblig = [], []
+        st.pc += A
+        try:
+            ex.call(st, fn, mk(ctx))
+        except Abort as x:
+            ck.inconclusive.append('Mem.in_bounds[%s]: %s' % (nm, x))
+            continue
+        ck.ninstr += ex.ninstr
+        ck.nstates += 1
+        other = kit.exit_cond(ex, ('abort', 'throw', 'trap', 'ub', 'uaf'))
+        vars_ = {'addr16': a16, 'addr32': a32, 'val': v, 'bypass': byp}
+        vars_.update({'miu.' + k: t for k, t in ctx['miu'].vars.items()})
+        ck.prove('Mem.in_bounds[%s]' % nm, A, z3.And(kit.obligations(ex), z3.Not(other)), vars=vars_,
+                 sample='%s from an arbitrary MIU state%s: every byte index into the DSP memory is below 0x80000 unless a page-register ASSERT stops the access first' % (nm, ' (program address below 0x40000: the fetch-side excess is the listed prpage finding)' if A else ''))
+    return ck.export()
+
+
 def _dispatch(fn, args):
     return fn(*args)
 
@@ -181,9 +211,9 @@ def run(tier, seed):
     ck = core.Check('C18', 'model_checking', tier, seed)
     E = env()
     n = len(E.rows)
-    ck.funcs.update(['Dma::Channel::Tick', 'Dma::SetSize0 / ActivateChannel (channel window)', 'every Interpreter handler reachable from the %d decode-table rows (through Matcher::call)' % n, 'Interpreter::Run'])
+    ck.funcs.update(['MemoryInterface::DataRead/DataWrite/DataReadA32/DataWriteA32/ProgramRead/ProgramWrite, MemoryInterfaceUnit::ConvertDataAddress/InMMIO/ToMMIO, SharedMemory::ReadWord/WriteWord', 'Dma::Channel::Tick', 'Dma::SetSize0 / ActivateChannel (channel window)', 'every Interpreter handler reachable from the %d decode-table rows (through Matcher::call)' % n, 'Interpreter::Run'])
     ck.assumptions += ['pre-state satisfies Inv_full: Inv on the visible registers and on the values the shadow / bank registers take when the real ContextRestore / banke swap them in; Inv_full is re-proved after every row, which extends one step to arbitrary instruction sequences (paper induction)',
-                       'data-memory accesses go through MemoryInterface::DataRead/DataWrite with a 16-bit address, proved in bounds for every MIU state in C11; here the program-space accesses are bounded']
+                       'data-memory accesses go through MemoryInterface::DataRead/DataWrite with a 16-bit address: Mem.in_bounds decides them (and the A32 / program accessors) for every MIU state; the rows bound the program-space addresses']
     ck.bounds += ['one instruction from an arbitrary state; no value bound']
     import re
     sensitive = re.compile(r'^(br|brr|call|calla|callr|ret|reti|retic|rets|push|pop|pusha|popa|bkrep|break_|rep|cntx|bank|mov_pc|movpdw|movp|movd|mov_prpage|pop_prpage|push_prpage|mov_icr|mov_lc|mov_repc|mov_stepi0|mov_stepj0|load_|alb|mov$|mov_|swap|lim|exp|norm|cbs|tstb|min|max|divs|vtr|trap|eint|dint|nop|bitrev|modr|exchange)')
@@ -194,7 +224,7 @@ def run(tier, seed):
         random.Random(seed).shuffle(rest)
         rows = sorted(keep + rest[:60])
         ck.bounds.append('quick tier: %d of %d rows (all control-flow / stack / loop / move / status rows plus a seeded sample of the arithmetic rows); thorough: every row, plus every row again on the UBSan-instrumented IR' % (len(rows), n))
-    jobs = [(job_row, (i, False, tier, seed)) for i in rows] + [(job_run, (tier, seed)), (job_dma, (tier, seed))]
+    jobs = [(job_row, (i, False, tier, seed)) for i in rows] + [(job_run, (tier, seed)), (job_dma, (tier, seed)), (job_mem, (tier, seed))]
     if tier == 'thorough':
         env(True)
         jobs += [(job_row, (i, True, tier, seed)) for i in range(n)]
